@@ -297,6 +297,7 @@ def run(ctx):
         for ds in range(ndatasets):
             if not ctx.budget_ok():
                 break
+            first_ds = ds == 0  # every part runs a few cases on the first dataset, whatever the load
             n_a = rng.randint(6, 14)
             make_data(rng, sa, conn, md, n_a)
             for shape in SHAPES:
@@ -306,8 +307,8 @@ def run(ctx):
                 vals = spec_values(n)
                 combos = [(l, o) for l in vals for o in vals if not (l is None and o is None)]
                 rng.shuffle(combos)
-                for lv, ov in combos[:combos_per_shape]:
-                    if not ctx.budget_ok():
+                for _k, (lv, ov) in enumerate(combos[:combos_per_shape]):
+                    if not (first_ds and _k < 2) and not ctx.budget_ok():
                         break
                     lk = rng.choice(["int", "int", "bind", "expr", "fetch"])
                     ok_ = rng.choice(["int", "int", "bind", "expr"])
@@ -319,18 +320,18 @@ def run(ctx):
                 nested_case(ctx, sa, conn, raw, md, rng, DIALECTS,
                             captured, NoInnerLimitCompiler, sqlite3, ds)
             # one cached statement shape, several limit/offset values (zero in any position)
-            for _ in range(ctx.pick({"quick": 12, "thorough": 60})):
-                if not ctx.budget_ok():
+            for _k in range(ctx.pick({"quick": 12, "thorough": 60})):
+                if not (first_ds and _k < 2) and not ctx.budget_ok():
                     break
                 replay_sequence(ctx, sa, conn, raw, md, rng, replay_engines, sqlite3, ds)
             # ORM entities with eagerly loaded collections
-            for _ in range(ctx.pick({"quick": 40, "thorough": 200})):
-                if not ctx.budget_ok():
+            for _k in range(ctx.pick({"quick": 40, "thorough": 200})):
+                if not (first_ds and _k < 4) and not ctx.budget_ok():
                     break
                 orm_eager_case(ctx, sa, orm, conn, raw, rng, ds, (A, AJ))
             # chained limit()/offset()/slice()/Query[...] compositions
-            for _ in range(ctx.pick({"quick": 40, "thorough": 200})):
-                if not ctx.budget_ok():
+            for _k in range(ctx.pick({"quick": 40, "thorough": 200})):
+                if not (first_ds and _k < 6) and not ctx.budget_ok():
                     break
                 chain_case(ctx, sa, conn, raw, md, rng, DIALECTS, captured, NoInnerLimitCompiler, sqlite3, ds, session, A)
         session.close()
